@@ -228,6 +228,10 @@ MON_EXPRS = {
     "c10obs_shifted": "restart_obs_bad c10_restart_obs_ok 1 0 (ms_k (fst @CASE@)) (ksteps (snd @CASE@))",
     "c10conv": "conv_trace_bad 2 0 (ms_k (fst @CASE@)) (ksteps (snd @CASE@))",
     "c10ahead": "conv_trace_bad 1 0 (ms_k (fst @CASE@)) (ksteps (snd @CASE@))",
+    "c11sm": "c11_sm_bad 0 None (obs_of (snd @CASE@))",
+    "c11g": "c11_g_bad 0 [] (obs_of (snd @CASE@))",
+    "c11cur": "c11_cur_bad 0 [] None (obs_of (snd @CASE@))",
+    "c11nil": "c11_nil_bad 0 (fst @CASE@) false (snd @CASE@)",
     "c01": "first_bad (c01_obs_ok (collect_vals [] (obs_of (snd @CASE@)))) 0 (obs_of (snd @CASE@))",
 }
 
